@@ -103,12 +103,10 @@ JudgePrf(e) ==
     ELSE IF e.out # "ok" THEN "PRF:refused-valid-input"
     ELSE IF ~IsBytes(e.res) THEN "PRF:result-not-bytes"
     ELSE LET n == OutLen(e.decl.out, e.decl.dig)
-             G == e.core
+             G == e.oracle           \* standard-library HMAC values supplied by the harness, independent of how the code computes
              want == PHashOver(G, e.decl.dig, e.k, e.m, n)
          IN  IF Len(e.res) # n THEN "PRF:output-length"
-             ELSE IF \E i \in UsedIdx(G) : G[i].res # G[i].ref \/ Len(G[i].res) # DigestSize(G[i].dig)
-                  THEN "PRF:core-is-not-standard-HMAC"
-             ELSE IF ~want.ok THEN "PRF:" \o want.why
+             ELSE IF ~want.ok THEN "A:oracle-incomplete"
              ELSE IF e.res # want.out THEN "PRF:output-not-P_hash"
              ELSE IF \E i \in 1..Len(e.again) : e.again[i] # e.res THEN "PRF:not-deterministic"
              ELSE "ok"
@@ -117,14 +115,10 @@ JudgeHash(e) ==
     IF e.out # "ok" THEN "Hash:refused-valid-input"
     ELSE IF ~IsBytes(e.res) THEN "Hash:result-not-bytes"
     ELSE LET n == OutLen(e.decl.out, e.decl.name)
-             G == e.core
+             G == e.oracle
              want == HashOver(G, e.decl.name, e.m, n)
          IN  IF Len(e.res) # n THEN "Hash:output-length"
-             ELSE IF \E i \in UsedIdx(G) : \/ G[i].res # G[i].ref
-                                           \/ G[i].n = -1 /\ Len(G[i].res) # DigestSize(G[i].name)
-                                           \/ G[i].n # -1 /\ Len(G[i].res) # G[i].n
-                  THEN "Hash:core-is-not-the-standard-hash"
-             ELSE IF ~want.ok THEN "Hash:" \o want.why
+             ELSE IF ~want.ok THEN "A:oracle-incomplete"
              ELSE IF e.res # want.out THEN "Hash:output-not-the-documented-expansion"
              ELSE IF \E i \in 1..Len(e.again) : e.again[i] # e.res THEN "Hash:not-deterministic"
              ELSE "ok"
@@ -151,12 +145,16 @@ JudgeDistinct(e) ==
 DriftPrf(e) ==
     IF PrfContractBroken(e.decl, e.k, e.m)
     THEN (IF Len(e.core) # 0 THEN "B:core-used-before-contract-check" ELSE "ok")
+    ELSE IF e.out # "ok" THEN "ok"
     ELSE LET n == OutLen(e.decl.out, e.decl.dig)
              G == e.core
              blocks == CeilDiv(n, DigestSize(e.decl.dig))
              want == PHashOver(G, e.decl.dig, e.k, e.m, n)
              probes == {i \in 1..Len(G) : ~G[i].used}
-         IN  IF \E i \in probes : ~(G[i].k = e.k /\ G[i].inp = <<>> /\ G[i].dig = e.decl.dig) THEN "B:unexpected-probe"
+         IN  IF \E i \in UsedIdx(G) : G[i].res # G[i].ref \/ Len(G[i].res) # DigestSize(G[i].dig)
+                  THEN "B:PRF:core-is-not-standard-HMAC"
+             ELSE IF ~want.ok THEN "B:PRF:" \o want.why
+             ELSE IF \E i \in probes : ~(G[i].k = e.k /\ G[i].inp = <<>> /\ G[i].dig = e.decl.dig) THEN "B:unexpected-probe"
              ELSE IF Cardinality(probes) # 1 THEN "B:not-exactly-one-digest-size-probe"
              ELSE IF \E i \in UsedIdx(G) : ~(G[i].k = e.k /\ G[i].dig = e.decl.dig /\ G[i].inp \in want.need \cup {want.look})
                   THEN "B:core-call-outside-the-construction"
@@ -164,11 +162,17 @@ DriftPrf(e) ==
              ELSE "ok"
 
 DriftHash(e) ==
+    IF e.out # "ok" THEN "ok" ELSE
     LET n == OutLen(e.decl.out, e.decl.name)
         G == e.core
         want == HashOver(G, e.decl.name, e.m, n)
         blocks == IF e.decl.name \in Xofs THEN 1 ELSE CeilDiv(n, DigestSize(e.decl.name))
-    IN  IF \E i \in 1..Len(G) : ~G[i].used THEN "B:unexpected-probe"
+    IN  IF \E i \in UsedIdx(G) : (G[i].res # G[i].ref)
+                                   \/ (G[i].n = -1 /\ Len(G[i].res) # DigestSize(G[i].name))
+                                   \/ (G[i].n # -1 /\ Len(G[i].res) # G[i].n)
+             THEN "B:Hash:core-is-not-the-standard-hash"
+        ELSE IF ~want.ok THEN "B:Hash:" \o want.why
+        ELSE IF \E i \in 1..Len(G) : ~G[i].used THEN "B:unexpected-probe"
         ELSE IF \E i \in UsedIdx(G) : ~(G[i].name = e.decl.name /\ G[i].inp \in want.need) THEN "B:core-call-outside-the-construction"
         ELSE IF Cardinality(UsedIdx(G)) # blocks THEN "B:number-of-core-calls"
         ELSE "ok"
